@@ -11,10 +11,10 @@ def run(tier):
     t = vlib.Timer()
     exe = seqxrun.build("c12", ["c12.cpp"])
     if tier == "quick":
-        args = [["--tokens", 3, "--values", 1, "--shard", i, "--nshards", NSH] for i in range(NSH)]
+        args = [["--tokens", 3, "--values", 1, "--cond-tokens", 5, "--shard", i, "--nshards", NSH] for i in range(NSH)]
     else:
         args = [["--tokens", 3, "--values", 0, "--shard", i, "--nshards", NSH] for i in range(NSH)] + \
-               [["--tokens", 4, "--values", 1, "--shard", i, "--nshards", 4 * NSH] for i in range(4 * NSH)]
+               [["--tokens", 4, "--values", 1, "--cond-tokens", 7, "--shard", i, "--nshards", 4 * NSH] for i in range(4 * NSH)]
     parts = seqxrun.run_shards(exe, args, timeout=7000)
     fails = [p for p in parts if "_crash" in p or "_timeout" in p]
     tot = seqxrun.merge([p for p in parts if p not in fails])
@@ -26,7 +26,8 @@ def run(tier):
         rule="every sequence of tokens up to the bound over an alphabet of literals (incl. %%, lone %, {, }, :), all documented placeholders, time formats, present / optional-missing attributes "
              "with ?N,M forms, format specs from the four documentation tables, the five type conditionals, and unterminated tails; each formatted for every value of an adversarial list "
              "(empty, pattern syntax, U+200B alone / trailing / surrounding, astral, combining, RTL) as message AND attribute value x all five types by the real PatternFormatter and by an "
-             "independent reference working on UTF-16 code units from docs/api/formatters.md; cases where the documentation is silent are excluded and counted per reason "
+             "independent reference working on UTF-16 code units from docs/api/formatters.md; plus longer patterns (5 / 7 tokens) over a reduced alphabet built around the conditionals "
+             "(the same placeholder in blocks of different types, inside and outside a block); one formatter object formats all values and types of a pattern in sequence; cases where the documentation is silent are excluded and counted per reason "
              "(coverage.counters); evaluations = (pattern, value, type, signature) cases, states = patterns",
         assumptions=["category/file/function are printable ASCII (what compilers and Qt produce)",
                      "accept-sets: ISO time with or without milliseconds; padding width of values with astral characters counted in code units or code points",
